@@ -5,19 +5,22 @@ import ast
 from typing import Dict, List, Set
 
 from .. import astutil as A
+from .. import sym as S
 from ..core import AnalysisError, Collector
-from ..dataflow import MUTATORS, base_name
-from .common import DEF_ATTRS, INDEX_ATTRS, FnCtx, fnctx, has_guard, is_self_call, is_method_call
+from ..dataflow import MUTATORS
+from .common import DEF_ATTRS, INDEX_ATTRS, FnCtx, SCtx, sctx
 from . import c01
+from .indexfx import index_effects
 
 PROP = "C17"
-FLOORS = {"C17.R1": 6, "C17.R2": 1, "C17.R3": 4, "C17.R4": 4}
+FLOORS = {"C17.R1": 6, "C17.R2": 1, "C17.R3": 4, "C17.R4": 6}
 META = {
-    "explanation": "Every statement of a Manager method that mutates the definitions (tasks) or a reverse index -- directly, through "
-                   "a local alias, or by calling another Manager method that does -- is dominated in the CFG by the branch of the "
-                   "`_tree_frozen` test that does not raise; the flag is written only by __init__/freeze_tree/unfreeze_tree; no "
-                   "code outside Manager writes the indices; in set_value nothing is written to user data before the calls that may "
-                   "refuse; the plain-value path reaches no guarded function.",
+    "explanation": "Every effect of a Manager method on the definitions (tasks) or a reverse index -- found on symbolic terms after "
+                   "helper inlining, so aliases and helper methods are seen through, or reached by calling another Manager method "
+                   "that has such an effect -- executes only on the branch of the `_tree_frozen` test whose other branch raises; "
+                   "the flag is written only by __init__/freeze_tree/unfreeze_tree, which do nothing else; no code outside Manager "
+                   "writes the indices; in set_value nothing is written to user data before the calls that may refuse; the "
+                   "plain-value path reaches no guarded function and propagation is computed afresh from the graph.",
     "decides": "guard dominance of all graph mutations (interprocedural over Manager methods), flag ownership, ordering refuse-before-write",
     "not_decided": "'behaves as if never frozen' over histories",
     "assumptions": ["mutations of a Manager created in the same function (copy/clone) are not mutations of the frozen one",
@@ -29,171 +32,79 @@ EXEMPT = {
     "__setstate__": "constructs the object when unpickling",
     "cleanup": "deletes only index entries proved empty by the guarding test (checked separately)",
 }
+FROZEN = S.sattr("_tree_frozen")
+NOT_FROZEN = ("uop", "not", FROZEN)
 
 
-def _alias_roots(fn) -> Dict[str, str]:
-    """local name -> manager attribute it may alias (flow-insensitive)"""
-    al: Dict[str, str] = {}
-
-    def root_attr(e):
-        # expression rooted at self.X (through subscripts, .get(), .items(), list(...), getattr(self, name))
-        while True:
-            if isinstance(e, ast.Subscript):
-                e = e.value
-            elif isinstance(e, ast.Call) and isinstance(e.func, ast.Attribute) and e.func.attr in ("get", "items", "values", "setdefault"):
-                e = e.func.value
-            elif isinstance(e, ast.Call) and A.call_name(e) in ("list", "iter", "tuple") and e.args:
-                e = e.args[0]
-            elif isinstance(e, ast.Call) and A.call_name(e) == "getattr" and len(e.args) >= 2 and A.dotted(e.args[0]) == "self":
-                return "*"
-            else:
-                break
-        a = A.self_attr(e)
-        if a in DEF_ATTRS:
-            return a
-        if isinstance(e, ast.Name) and e.id in al:
-            return al[e.id]
-        return None
-
-    changed = True
-    while changed:
-        changed = False
-        for n in A.walk(fn):
-            pairs = []
-            if isinstance(n, ast.Assign) and len(n.targets) == 1:
-                pairs = [(n.targets[0], n.value)]
-            elif isinstance(n, ast.For):
-                it = n.iter
-                if isinstance(it, (ast.Tuple, ast.List)):
-                    for e in it.elts:
-                        pairs.append((n.target, e))
-                else:
-                    pairs.append((n.target, it))
-            for t, v in pairs:
-                r = root_attr(v)
-                if r:
-                    for nm in A.target_names(t):
-                        if nm not in al:
-                            al[nm] = r
-                            changed = True
-    return al
-
-
-def mutation_sites(cx: FnCtx):
-    """[(node id, description)] of statements that mutate self.<DEF_ATTRS> directly or via alias"""
-    al = _alias_roots(cx.fn)
-    out = []
-
-    def rooted(e):
-        """attr if expression e denotes (part of) self.X or an alias"""
-        cur = e
-        while isinstance(cur, (ast.Subscript,)):
-            cur = cur.value
-        a = A.self_attr(cur)
-        if a in DEF_ATTRS:
-            return a
-        if isinstance(cur, ast.Name) and cur.id in al:
-            return al[cur.id]
-        return None
-
-    for nid, node in cx.cfg.nodes.items():
-        if node.kind not in ("stmt", "test", "for", "with"):
+def _manager_methods(repo):
+    mg = repo.cls("Manager")
+    out, seen = {}, set()
+    for name, fn in mg.methods.items():
+        if id(fn) in seen or name in mg.properties:
             continue
-        for part in cx.cfg.own_exprs(nid):
-            for n in A.walk(part):
-                targets = []
-                if isinstance(n, ast.Assign):
-                    targets = n.targets
-                elif isinstance(n, (ast.AugAssign, ast.AnnAssign)):
-                    targets = [n.target]
-                elif isinstance(n, ast.Delete):
-                    targets = n.targets
-                for t in targets:
-                    for e in (t.elts if isinstance(t, (ast.Tuple, ast.List)) else [t]):
-                        if A.self_attr(e) in DEF_ATTRS:
-                            out.append((nid, f"rebinds self.{e.attr}"))
-                        elif isinstance(e, ast.Subscript) and rooted(e.value):
-                            out.append((nid, f"{'deletes from' if isinstance(n, ast.Delete) else 'stores into'} {A.src(e.value)}"))
-                if isinstance(n, ast.Call) and isinstance(n.func, ast.Attribute) and n.func.attr in MUTATORS:
-                    if rooted(n.func.value):
-                        out.append((nid, f"{A.src(n.func.value)}.{n.func.attr}(...)"))
-                if isinstance(n, ast.Call) and A.call_name(n) in ("setattr", "object.__setattr__") and len(n.args) >= 2 \
-                        and A.dotted(n.args[0]) == "self":
-                    k = A.const(n.args[1])
-                    if k in DEF_ATTRS or not isinstance(n.args[1], ast.Constant):
-                        out.append((nid, f"setattr(self, {A.src(n.args[1])}, ...)"))
+        seen.add(id(fn))
+        out[name] = fn
     return out
 
 
-def _is_frozen_test(t) -> bool:
-    return A.self_attr(t) == "_tree_frozen" or (A.compare_parts(t) is not None and "_tree_frozen" in A.src(t) and False)
-
-
-def frozen_guarded(cx: FnCtx, nid: int) -> bool:
-    """nid is dominated by the non-raising branch of `if self._tree_frozen: raise ValueError`"""
-    cfg = cx.cfg
-    for g in cfg.guards(nid):
-        if isinstance(g.ast, ast.For):
-            continue
-        t = g.ast
-        neg = False
-        if isinstance(t, ast.UnaryOp) and isinstance(t.op, ast.Not):
-            t, neg = t.operand, True
-        if A.self_attr(t) != "_tree_frozen":
-            continue
-        safe_kind = "T" if neg else "F"
-        if g.kind != safe_kind:
-            continue
-        # the other branch must not reach the mutation nor the normal exit: it raises
-        other = [n.id for n in cfg.nodes.values() if n.of == g.of and n.kind == ("F" if safe_kind == "T" else "T")][0]
-        reach = cfg.reachable(other)
+def frozen_guarded(sx: SCtx, nid: int) -> bool:
+    """nid executes only when the tree is not frozen, and the frozen branch of that test leaves by raising"""
+    if not sx.under(nid, NOT_FROZEN):
+        return False
+    cfg = sx.cfg
+    for b in sx.branches(FROZEN):
+        reach = cfg.reachable(b)
         if cfg.EXIT in reach or nid in reach:
             continue
-        raises = [cfg.nodes[r].ast for r in reach if cfg.nodes[r].kind == "stmt" and isinstance(cfg.nodes[r].ast, ast.Raise)]
-        if raises and all(r.exc is not None and (A.call_name(r.exc) if isinstance(r.exc, ast.Call) else A.dotted(r.exc)) == "ValueError"
-                          or (isinstance(r.exc, ast.Call) and isinstance(r.exc.func, ast.Name) and r.exc.func.id == "ValueError")
-                          or A.src(r.exc).startswith("ValueError") or A.src(r.exc).startswith("(ValueError")
-                          for r in raises):
+        if cfg.dominates(cfg.nodes[b].of, nid):
             return True
     return False
 
 
 def classify_methods(col: Collector):
-    """per Manager method: list of unguarded mutation sites (direct or through calls), to a fixpoint"""
+    """per Manager method: unguarded mutation sites (direct, or through calls of other methods), to a fixpoint"""
     repo = col.repo
-    mg = repo.cls("Manager")
-    ctxs: Dict[str, FnCtx] = {}
+    meths = _manager_methods(repo)
+    api = set(meths) - {m for m in meths if m.startswith("_") and not m.startswith("__")}
+    ctxs: Dict[str, SCtx] = {}
     direct: Dict[str, list] = {}
-    seen = set()
-    for name, fn in mg.methods.items():
-        if id(fn) in seen:
-            continue
-        seen.add(id(fn))
-        ctxs[name] = FnCtx(mg.module, mg, fn)
-        direct[name] = mutation_sites(ctxs[name])
+    for name in meths:
+        try:
+            sx = sctx(repo, "Manager", name, public=False)      # private helpers inlined, API methods kept as call sites
+        except NotImplementedError:
+            raise AnalysisError(f"Manager.{name}: unsupported statement")
+        ctxs[name] = sx
+        fx, unk = index_effects(sx)
+        sites = [(e.nid, e.short()) for e in fx]
+        for ev in sx.events:
+            if ev.kind == "call" and ev.term[1] in (("glob", "setattr"), ("attr", ("glob", "object"), "__setattr__")) \
+                    and len(ev.term[2]) >= 2 and ev.term[2][0] == S.SELF:
+                k = ev.term[2][1]
+                if k[:1] != ("const",) or k[1].strip("'\"") in DEF_ATTRS:
+                    sites.append((ev.nid, f"setattr(self, {S.show(k)}, ...)"))
+        direct[name] = sites
     unguarded: Dict[str, list] = {n: [] for n in ctxs}
-    mutating: Set[str] = {n for n, s in direct.items() if s}
-    for name, cx in ctxs.items():
+    mutating: Set[str] = {n for n, s_ in direct.items() if s_}
+    for name, sx in ctxs.items():
         for nid, desc in direct[name]:
-            if not frozen_guarded(cx, nid):
+            if not frozen_guarded(sx, nid):
                 unguarded[name].append((nid, desc))
     changed = True
     while changed:
         changed = False
-        for name, cx in ctxs.items():
-            for nid in cx.call_nodes(lambda c: is_self_call(c)):
-                for c in cx.calls_at(nid, lambda c: is_self_call(c)):
-                    callee = c.func.attr
-                    if callee not in ctxs or callee == name:
-                        continue
-                    if callee in mutating and name not in mutating:
-                        mutating.add(name)
+        for name, sx in ctxs.items():
+            for ev, m in sx.calls_some(("call", ("attr", S.SELF, S.V("m")), S.ANY, S.ANY)):
+                callee = m["m"]
+                if callee not in ctxs or callee == name:
+                    continue
+                if callee in mutating and name not in mutating:
+                    mutating.add(name)
+                    changed = True
+                if unguarded[callee] and callee not in EXEMPT and not frozen_guarded(sx, ev.nid):
+                    entry = (ev.nid, f"calls self.{callee}() which mutates without the frozen guard")
+                    if entry not in unguarded[name]:
+                        unguarded[name].append(entry)
                         changed = True
-                    if unguarded[callee] and callee not in EXEMPT and not frozen_guarded(cx, nid):
-                        entry = (nid, f"calls self.{callee}() which mutates without the frozen guard")
-                        if entry not in unguarded[name]:
-                            unguarded[name].append(entry)
-                            changed = True
     return ctxs, direct, unguarded, mutating
 
 
@@ -201,41 +112,36 @@ def _guard_dominance(col, rule="C17.R1"):
     ctxs, direct, unguarded, mutating = classify_methods(col)
     col.info["manager_methods_mutating_graph"] = sorted(mutating)
     for name in sorted(mutating):
-        cx = ctxs[name]
+        sx = ctxs[name]
+        if name.startswith("_") and not name.startswith("__"):
+            continue    # private helper: judged where it is inlined (or, if opaque, through the fixpoint at its call sites)
         if name in EXEMPT:
-            col.ok(rule, f"Manager.{name}#exempt", cx.loc(cx.fn), f"exempt from the frozen guard: {EXEMPT[name]}", "")
+            col.ok(rule, f"Manager.{name}#exempt", sx.loc(sx.fn), f"exempt from the frozen guard: {EXEMPT[name]}", "")
             continue
         bad = unguarded[name]
-        col.add(rule, f"Manager.{name}#mutations-guarded", not bad, cx.loc(bad[0][0]) if bad else cx.loc(cx.fn),
+        col.add(rule, f"Manager.{name}#mutations-guarded", not bad, sx.loc(bad[0][0]) if bad else sx.loc(sx.fn),
                 "every mutation of the definitions / indices in this method happens only after the frozen test that raises ValueError",
-                "; ".join(f"{cx.loc(n)}: {d}" for n, d in bad) or f"{len(direct[name])} direct mutation sites, all guarded")
+                "; ".join(f"{sx.loc(n)}: {d}" for n, d in bad) or f"{len(direct[name])} direct mutation sites, all guarded")
     for must in ("register", "unregister"):
         if must not in mutating:
             raise AnalysisError(f"Manager.{must} no longer mutates the graph (anchor changed)")
-    # cleanup exemption condition
-    cx = ctxs.get("cleanup")
-    if cx is not None:
-        sites = direct["cleanup"]
-        ok = bool(sites)
-        for nid, desc in sites:
-            st = cx.cfg.nodes[nid].ast
-
-            def empty_test(t):
-                p = A.compare_parts(t)
-                return bool(p and isinstance(p[1], ast.Eq) and isinstance(p[0], ast.Call) and A.call_name(p[0]) == "len"
-                            and A.is_const(p[2], 0))
-            if not (isinstance(st, ast.Delete) and has_guard(cx.cfg, nid, "T", empty_test)):
-                ok = False
-        col.add(rule, "Manager.cleanup#only-empty-entries", ok, cx.loc(cx.fn),
-                "cleanup (not guarded) only deletes index entries whose multiset is empty", f"{[d for _, d in sites]}")
+    sx = ctxs.get("cleanup")
+    if sx is not None:
+        fx, unk = index_effects(sx)
+        ok, facts = bool(fx) and not unk, ""
+        for e in fx:
+            mk = S.match(e.key, ("key", S.V("d"))) if e.op == "delkey" and e.key is not None else None
+            if not (mk and any(S.match(c, ("empty", ("val", mk["d"]))) is not None for c in e.conds)):
+                ok, facts = False, f"{e.short()} under {[S.show(c, False) for c in e.conds]}"
+        col.add(rule, "Manager.cleanup#only-empty-entries", ok, sx.loc(sx.fn),
+                "cleanup (not guarded) only deletes index entries whose multiset is empty", facts)
 
 
 def _refuse_before_write(col, rule="C17.R2"):
     sub = Collector(col.repo, "C17", col.tier)
-    c01._set_value_protocol(sub)
+    c01._set_value_protocol(sub, order_rule=rule)
     for o in sub.obs:
-        if o.construct.endswith("#graph-changes-precede-write"):
-            o.rule = rule
+        if o.rule == rule:
             col.obs.append(o)
 
 
@@ -293,10 +199,9 @@ def _who_may_write(col, rule="C17.R3"):
         ok = c is not None and c.name == "Manager" and fn.name in expected and isinstance(n, ast.Assign) \
             and A.is_const(n.value, expected[fn.name])
         if ok:
-            # unconditional in its method
             cx = FnCtx(m, c, fn)
             nid = cx.cfg.node_of(n)
-            ok = nid is not None and not cx.cfg.guards(nid) and cx.cfg.must_pass(cx.cfg.ENTRY, cx.cfg.EXIT, [nid])
+            ok = nid is not None and not cx.cfg.cond_guards(nid) and cx.cfg.must_pass(cx.cfg.ENTRY, cx.cfg.EXIT, [nid])
         seenw.add(fn.name if ok else None)
         col.add(rule, f"{(c.name + '.') if c else ''}{fn.name}#writes-frozen-flag", ok, m.loc(n),
                 "the frozen flag is written only by Manager.__init__ (False), freeze_tree (True) and unfreeze_tree (False), unconditionally",
@@ -304,38 +209,58 @@ def _who_may_write(col, rule="C17.R3"):
     for k in expected:
         if k not in seenw:
             col.fail(rule, f"Manager.{k}#writes-frozen-flag", "xdeps/tasks.py", f"Manager.{k} sets the frozen flag to {expected[k]}", "no such write found")
+    # freezing / unfreezing does nothing else: no other state is switched on or off with the flag
+    for k in ("freeze_tree", "unfreeze_tree"):
+        sx = sctx(repo, "Manager", k, public=True, keep=c01.ANCHORS)
+        other = [S.show(t) for e in sx.of_kind("store") for t in S.alts(e.target) if t != FROZEN]
+        other += [S.show(e.term) for e in sx.events if e.kind == "call" and e.term[1][:1] == ("attr",) and e.term[1][2] in MUTATORS]
+        col.add(rule, f"Manager.{k}#only-the-flag", not other, sx.loc(sx.fn),
+                f"{k} changes nothing but the frozen flag (a manager behaves after unfreezing as if it had never been frozen)",
+                f"other state written: {other}")
 
 
 def _values_still_propagate(col, rule="C17.R4"):
-    repo = col.repo
     ctxs, direct, unguarded, mutating = classify_methods(col)
-    sv = ctxs["set_value"]
-    P = A.params(sv.fn)
-    ref_p, val_p = P[1], P[2]
-
-    def in_tasks(t):
-        p = A.compare_parts(t)
-        return bool(p and isinstance(p[1], ast.In) and A.dotted(p[0]) == ref_p and A.dotted(p[2]) == "self.tasks")
-
-    def is_ref_test(t):
-        return isinstance(t, ast.Call) and A.call_name(t) in ("isinstance", "is_ref") and t.args and A.dotted(t.args[0]) == val_p
+    sv = c01.set_value_ctx(col)
+    ref, value = sv.P(0), sv.P(1)
+    in_tasks = ("cmp", "in", ref, S.sattr("tasks"))
+    isref = [S.fcall("isinstance", value, S.ANY), S.fcall("is_ref", value)]
     bad = []
-    for nid in sv.call_nodes(lambda c: is_self_call(c) and c.func.attr in mutating and c.func.attr not in ("set_value",)):
-        if not (has_guard(sv.cfg, nid, "T", in_tasks) or has_guard(sv.cfg, nid, "T", is_ref_test)):
-            bad.append(nid)
+    for ev, m in sv.calls_some(("call", ("attr", S.SELF, S.V("m")), S.ANY, S.ANY)):
+        if m["m"] in mutating and m["m"] != "set_value":
+            if not (sv.under(ev.nid, in_tasks) or any(sv.under(ev.nid, p) for p in isref)):
+                bad.append(ev.nid)
     col.add(rule, "Manager.set_value#plain-value-path-unguarded", not bad, sv.loc(bad[0]) if bad else sv.loc(sv.fn),
             "assigning a plain value to a location without an expression reaches no function that refuses when frozen",
             f"graph-mutating calls outside the two tests: {[sv.loc(b) for b in bad]}")
-    ft = [n for n in A.walk(sv.fn) if A.self_attr(n) == "_tree_frozen"]
-    col.add(rule, "Manager.set_value#no-own-frozen-test", not ft, sv.loc(ft[0]) if ft else sv.loc(sv.fn),
+
+    def reads_flag(sx: SCtx):
+        for n in sx.cfg.nodes.values():
+            if n.ast is not None and n.kind in ("stmt", "test", "for", "with"):
+                for part in sx.cfg.own_exprs(n.id):
+                    if part is not None and S.contains(sx.sym.of(part, n.id) if isinstance(part, ast.expr) else ("opaque", ""), lambda t: t == FROZEN):
+                        return True
+                    if part is not None and not isinstance(part, ast.expr):
+                        for x in A.walk(part):
+                            if A.self_attr(x) == "_tree_frozen":
+                                return True
+        return False
+    col.add(rule, "Manager.set_value#no-own-frozen-test", not reads_flag(sv), sv.loc(sv.fn),
             "set_value itself does not test the frozen flag (plain values must still propagate)", "")
     for name in ("run_tasks", "find_tasks", "find_taskids"):
-        cx = ctxs[name]
-        ft = [n for n in A.walk(cx.fn) if isinstance(n, ast.Attribute) and n.attr == "_tree_frozen"]
-        calls_mut = [c for c in A.calls(cx.fn) if is_self_call(c) and c.func.attr in mutating]
-        col.add(rule, f"Manager.{name}#independent-of-frozen-flag", not ft and not calls_mut, cx.loc(cx.fn),
-                "propagation neither reads nor writes the frozen flag and calls nothing that mutates the graph",
-                f"flag uses: {len(ft)}, graph-mutating calls: {[A.src(c) for c in calls_mut]}")
+        sx = sctx(col.repo, "Manager", name, public=True, keep=c01.ANCHORS)
+        calls_mut = [S.show(ev.term) for ev, m in sx.calls_some(("call", ("attr", S.SELF, S.V("m")), S.ANY, S.ANY)) if m["m"] in mutating]
+        col.add(rule, f"Manager.{name}#independent-of-frozen-flag", not reads_flag(sx) and not calls_mut, sx.loc(sx.fn),
+                "propagation neither reads the frozen flag nor calls anything that mutates the graph",
+                f"graph-mutating calls: {calls_mut}")
+    # the schedule is recomputed from the graph on every assignment (no plan remembered from a frozen period)
+    sub = Collector(col.repo, "C17", col.tier)
+    c01._set_value_protocol(sub)
+    c01._trigger_closure(sub, rule)
+    for o in sub.obs:
+        if o.construct.endswith("#trigger-set") or o.rule == rule:
+            o.rule = rule
+            col.obs.append(o)
 
 
 def check(col: Collector):
